@@ -327,6 +327,8 @@ def gen_run(seed: int, tier: str, sub: str) -> dict:
     if sub != 'captured':
         shape = {0: 'sweep', 1: 'sweep', 2: 'stampede', 3: 'failure', 4: 'focus', 5: 'boundary', 6: 'failure', 7: 'derive',
                  9: 'focus'}.get(slot, 'free')
+    if shape == 'free' and rot % 2 == 0 and sub != 'captured':
+        shape = 'chain'
     cfg['shape'] = shape
     cfg['sweep'] = shape == 'sweep'
     cfg['stampede'] = shape == 'stampede'
@@ -385,6 +387,28 @@ def gen_run(seed: int, tier: str, sub: str) -> dict:
             r.shuffle(ctxs)
             for cname in ctxs:
                 call_pool.append((sns, name, args, cname))
+    elif shape == 'chain':
+        # a long chain of *different* calls, drawn from every namespace: each one is preceded by many
+        # others (a broad net for state kept from one function, context or argument kind to another); the
+        # calls come from a small fixed palette (two argument tuples, four contexts per function) so that
+        # their fresh-process references are shared from run to run
+        cfg['nthreads'] = nthreads = r.choice([1, 1, 2])
+        cfg['mean_quantum'] = r.choice([40, 150, 600, 2500])
+        cfg['opcode'] = False
+        palette = [None, 'FP32', 'RTZ16', 'FX4']
+        everything = [(ns, n) for ns in sorted(meta) for n in sorted(meta[ns]['SIG'])]
+        picked = r.sample(everything, min(30, len(everything)))
+        threads = []
+        for t in range(nthreads):
+            ops = []
+            order = picked if t == 0 else picked[::-1]
+            for ns, name in order:
+                cname = palette[(sum(map(ord, name)) + rot) % len(palette)]
+                ops.append({'op': 'call', 'fn': [ns, name], 'key': {'root': [ns, name], 'chain': []},
+                            'args': catalogue(ns, name, meta[ns]['SIG'][name])[rot % 2], 'ctx': cname,
+                            'rt': 'default' if len(ops) % 5 else 'own', 'cancel': None})
+            threads.append(ops)
+        return {'seed': seed, 'cfg': cfg, 'threads': threads, 'schedule': None, 'sched_seed': r.randrange(1 << 62)}
     elif shape == 'derive':
         # transformed copies as history: the source is evaluated, a copy is derived from it (strategies
         # and user rewrite rules), the copy and the source are evaluated again through the same and
